@@ -233,7 +233,7 @@ func main() {
 		rs := selected[idx]
 		c := cases[rs.ci]
 		runID++
-		out.Put(vh.M{"kind": "journal", "index": idx, "key": rs.key})
+		out.Put(vh.M{"kind": "journal", "index": idx, "key": rs.key, "run": runID})
 		out.Flush()
 		rng := rand.New(rand.NewSource(int64(hash64(fmt.Sprintf("%d/%s", seed, rs.key)) >> 1)))
 
@@ -243,15 +243,14 @@ func main() {
 		if hs < 0 {
 			hs = 0
 		}
-		r := newRec(hs, 60000)
+		r := newRec(hs, 12000)
 		info := vh.M{"kind": "run", "run": runID, "index": idx, "key": rs.key, "routine": rs.routineName(), "variant": rs.variant,
 			"family": c.Kind, "cons": rs.o.Cons, "case": c.index, "first_event": nEvents + 1}
 
 		writeRun := func(evs []ev) {
-			nb := nEvents + len(evs) + 1
 			for i := range evs {
 				evs[i].Run = runID
-				evs[i].Nb = nb
+				evs[i].Skip = len(evs) - i
 				trace.Put(evs[i])
 			}
 			nEvents += len(evs)
@@ -300,7 +299,7 @@ func main() {
 			}
 			begin.Algo, begin.Maxit, begin.HookKind, begin.IterBy, begin.Fixed = rt.name, maxit, rt.hookKind, rt.iterBy, rt.fixed
 			begin.HasCons = pr.cons != nil
-			begin.Sc = c.Sc
+			begin.Sc = c.Sc && rt.name != "lineSearch" // the 1-d restriction has its own minimiser
 			res = rt.run(pr, rs.variant, rs.o, maxit, rng, r)
 			info["eps"] = pr.eps
 			info["maxit"] = maxit
